@@ -326,6 +326,12 @@ func TestC10V1Lend(t *testing.T) {
 					}
 				case o.priceClass <= 7:
 					actC, actD = true, true
+				case o.priceClass == 8:
+					// a feed goes inactive and stays so until a class 0/1/6/7 tick: the closing bids that follow meet
+					// the feed requirement of UnLiquidateLockedBorrows (fix 6257748)
+					actC = false
+				case o.priceClass == 9:
+					actD = false
 				}
 				c = c10At(ctx, now)
 				setPrice(a, c, assetC, twaC, actC)
